@@ -52,7 +52,13 @@ func applyDelta(t *rapid.T, b *api.PinOptions, d string) {
 			}
 		}
 	case "origin-add":
-		b.Origins = append(b.Origins, gen.Origin().Draw(t, "o2"))
+		o := gen.Origin().Draw(t, "o2")
+		for _, x := range b.Origins {
+			if x.Equal(o) {
+				return // a well-formed origin list has no duplicates
+			}
+		}
+		b.Origins = append(b.Origins, o)
 	case "origin-rm":
 		if len(b.Origins) > 0 {
 			b.Origins = b.Origins[1:]
